@@ -20,20 +20,7 @@ static int len_range(Rng &r, int lo, int hi) {
 }
 static int64_t d2bits(double d) { int64_t b; memcpy(&b, &d, 8); return b; }
 static int64_t R(Rng &r) { return (int64_t)(r.next() >> 2); }
-// long keys: lengths sweep across the sizes a fixed scratch buffer could have (powers of two); the body is one letter in
-// random case, so that two long keys of an object agree - after case folding - in a long prefix and differ only near the end
-static std::string longkey(Rng &r, bool pointer_chars) {
-    static const int base[] = {16, 32, 64, 128, 256, 512, 1024};
-    size_t len = r.chance(1, 2) ? (size_t)(base[r.below(7)] + 2 - (int)r.below(16)) : (size_t)r.range(1, 300);
-    char c = r.chance(3, 4) ? 'k' : (char)('a' + r.below(26));
-    bool mixed = r.chance(1, 2);
-    std::string k(len, c);
-    if (mixed) for (auto &ch : k) if (r.chance(1, 2)) ch = (char)(ch - 32);
-    size_t tail = (size_t)r.range(0, 3);
-    for (size_t i = 0; i < tail && i < len; i++) k[len - 1 - i] = "abAB01zZ"[r.below(8)];
-    if (pointer_chars && r.chance(1, 4)) k[r.below(len)] = r.chance(1, 2) ? '/' : '~';
-    return k;
-}
+static std::string longkey(Rng &r, bool pointer_chars) { return gen_longkey(r, pointer_chars); }
 static std::string hkey(Rng &r) {
     static const char *ks[] = {"a", "b", "A", "B", "ab", "aB", "", "k1", "name", "Name", "ck", "CK", "c", "z"};
     if (r.chance(1, 16)) return longkey(r, false);
